@@ -6,6 +6,27 @@ use crate::types::{OwnedValue, Value};
 use hashbrown::HashMap as FastHashMap;
 use std::borrow::Cow;
 
+thread_local! {
+    /// Operator or function whose 64-bit integer result overflowed while an expression was
+    /// evaluated on this thread. `eval_value` can only answer `Option<Value>`, so overflow
+    /// is recorded here and the executor turns it into an error after the evaluation
+    /// (see [`take_integer_overflow`]).
+    static INTEGER_OVERFLOW: std::cell::Cell<Option<&'static str>> =
+        const { std::cell::Cell::new(None) };
+}
+
+/// Records that `what` overflowed the 64-bit integer range. Returns `None` so that an
+/// evaluator can `return integer_overflow("+")`.
+pub(crate) fn integer_overflow<T>(what: &'static str) -> Option<T> {
+    INTEGER_OVERFLOW.with(|c| c.set(Some(what)));
+    None
+}
+
+/// Takes (and clears) the overflow recorded on this thread since the last call.
+pub(crate) fn take_integer_overflow() -> Option<&'static str> {
+    INTEGER_OVERFLOW.with(|c| c.take())
+}
+
 pub struct CompiledPredicate<'a> {
     expr: &'a crate::sql::ast::Expr<'a>,
     column_map: FastHashMap<String, usize>,
@@ -347,7 +368,10 @@ impl<'a> CompiledPredicate<'a> {
 
         match op {
             UnaryOperator::Minus => match val {
-                Value::Int(n) => Some(Value::Int(-n)),
+                Value::Int(n) => match n.checked_neg() {
+                    Some(v) => Some(Value::Int(v)),
+                    None => integer_overflow("unary -"),
+                },
                 Value::Float(f) => Some(Value::Float(-f)),
                 _ => None,
             },
@@ -1000,23 +1024,26 @@ impl<'a> CompiledPredicate<'a> {
 
         match op {
             BinaryOperator::Plus => {
-                self.eval_arithmetic_op(left, right, |a, b| a + b, |a, b| a + b)
+                self.eval_arithmetic_op(left, right, "+", i64::checked_add, |a, b| a + b)
             }
             BinaryOperator::Minus => {
-                self.eval_arithmetic_op(left, right, |a, b| a - b, |a, b| a - b)
+                self.eval_arithmetic_op(left, right, "-", i64::checked_sub, |a, b| a - b)
             }
             BinaryOperator::Multiply => {
-                self.eval_arithmetic_op(left, right, |a, b| a * b, |a, b| a * b)
+                self.eval_arithmetic_op(left, right, "*", i64::checked_mul, |a, b| a * b)
             }
             BinaryOperator::Divide => match (left, right) {
-                (Value::Int(a), Value::Int(b)) if *b != 0 => Some(Value::Int(a / b)),
+                (Value::Int(a), Value::Int(b)) if *b != 0 => match a.checked_div(*b) {
+                    Some(v) => Some(Value::Int(v)),
+                    None => integer_overflow("/"),
+                },
                 (Value::Int(a), Value::Float(b)) if *b != 0.0 => Some(Value::Float(*a as f64 / b)),
                 (Value::Float(a), Value::Int(b)) if *b != 0 => Some(Value::Float(a / *b as f64)),
                 (Value::Float(a), Value::Float(b)) if *b != 0.0 => Some(Value::Float(a / b)),
                 _ => None,
             },
             BinaryOperator::Modulo => match (left, right) {
-                (Value::Int(a), Value::Int(b)) if *b != 0 => Some(Value::Int(a % b)),
+                (Value::Int(a), Value::Int(b)) if *b != 0 => Some(Value::Int(a.wrapping_rem(*b))),
                 (Value::Float(a), Value::Float(b)) if *b != 0.0 => Some(Value::Float(a % b)),
                 (Value::Int(a), Value::Float(b)) if *b != 0.0 => Some(Value::Float(*a as f64 % b)),
                 (Value::Float(a), Value::Int(b)) if *b != 0 => Some(Value::Float(a % *b as f64)),
@@ -1025,7 +1052,10 @@ impl<'a> CompiledPredicate<'a> {
             BinaryOperator::Power => match (left, right) {
                 (Value::Int(a), Value::Int(b)) => {
                     if *b >= 0 {
-                        Some(Value::Int(a.pow(*b as u32)))
+                        match u32::try_from(*b).ok().and_then(|e| a.checked_pow(e)) {
+                            Some(v) => Some(Value::Int(v)),
+                            None => integer_overflow("^"),
+                        }
                     } else {
                         Some(Value::Float((*a as f64).powi(*b as i32)))
                     }
@@ -1711,15 +1741,19 @@ impl<'a> CompiledPredicate<'a> {
         &self,
         left: &Value<'a>,
         right: &Value<'a>,
+        symbol: &'static str,
         int_op: F,
         float_op: G,
     ) -> Option<Value<'a>>
     where
-        F: Fn(i64, i64) -> i64,
+        F: Fn(i64, i64) -> Option<i64>,
         G: Fn(f64, f64) -> f64,
     {
         match (left, right) {
-            (Value::Int(a), Value::Int(b)) => Some(Value::Int(int_op(*a, *b))),
+            (Value::Int(a), Value::Int(b)) => match int_op(*a, *b) {
+                Some(v) => Some(Value::Int(v)),
+                None => integer_overflow(symbol),
+            },
             (Value::Float(a), Value::Float(b)) => Some(Value::Float(float_op(*a, *b))),
             (Value::Int(a), Value::Float(b)) => Some(Value::Float(float_op(*a as f64, *b))),
             (Value::Float(a), Value::Int(b)) => Some(Value::Float(float_op(*a, *b as f64))),
